@@ -52,6 +52,9 @@ func agree(n, w prog.Obs) bool {
 func Run(c *vl.Ctx) {
 	quick := c.Quick()
 	cases := append(c01.Bases(quick), c01.Small(quick)...)
+	// operation sequences over one shared state, without the constructs the wasm back end rejects
+	// (closures, results); quick: single operations and pairs, thorough: triples as well
+	cases = append(cases, c01.SeqWithout(quick, "closure", "catch", "catch-neg", "x=par(x)")...)
 	if f := os.Getenv("VERIF_FILTER"); f != "" {
 		var l []*prog.Case
 		for _, k := range cases {
